@@ -11,7 +11,7 @@ from ..monitors import V
 from ..spaces import shard_iter
 
 ID = "C16"
-BUDGET = {"quick": 100, "thorough": 2400}
+BUDGET = {"quick": 150, "thorough": 2400}
 
 LIB_SRC = '''
 from tawazi import xn, dag, Resource
@@ -56,7 +56,8 @@ def d_pause(x):
     a = inc(x)
     T.pause()
     b = dbl(a)
-    return a, b
+    c = inc(b)
+    return a, b, c
 ''',
     "build_nest": '''
 @dag
@@ -66,7 +67,13 @@ def d_nest(x):
     return inc(r)
 ''',
 }
-DAG_NAME = {"build": "d_build", "build2": "d_build2", "build_pause": "d_pause", "build_nest": "d_nest"}
+BUILD_SRC["build_fail"] = '''
+@dag
+def d_fail(x):
+    a = inc(x)
+    raise KeyError("user error inside the describing function")
+'''
+DAG_NAME = {"build_fail": "d_fail", "build": "d_build", "build2": "d_build2", "build_pause": "d_pause", "build_nest": "d_nest"}
 
 NS: Dict[str, Any] = {}
 
@@ -136,6 +143,8 @@ SCENARIOS: Dict[str, List[List[tuple]]] = {
     "build||call||call": [[("build",)], [("call", 1)], [("call", 2)]],
     "build_pause||build||call": [[("build_pause",)], [("build",)], [("call", 2)]],
     "2ops": [[("build_pause",), ("call", 1)], [("call", 2), ("build2",)]],
+    "failed_build_then_call||build_pause": [[("build_fail",), ("call", 1), ("bare", 4)], [("build_pause",)]],
+    "failed_build_then_build||build_pause": [[("build_fail",), ("build",)], [("build_pause",), ("call", 2)]],
 }
 BARE_BEHAVIOURS = ["ignore", "warning", "error"]
 
@@ -148,7 +157,7 @@ def cases(tier: str):
     # line-level preemption: sharded over the position of the first preemption
     parts = 8 if q else 16
     for name in SCENARIOS:
-        if q and name in ("2ops", "build_pause||build||call", "build||call||call", "build_pause||build2"):
+        if q and name in ("2ops", "build_pause||build||call", "build||call||call", "build_pause||build2", "failed_build_then_build||build_pause", "failed_build_then_call||build_pause"):
             continue
         for beh in (BARE_BEHAVIOURS[:1] + BARE_BEHAVIOURS[2:] if "bare" in name else ["error"]):
             for part in range(parts):
